@@ -583,9 +583,20 @@ def synthetic_model(rng, reaction, idx: int = 0):
         j = sp.Rational(1, 2)  # (j = 1 costs seconds per numeric evaluation: SymPy simplifies every d-function)
         body = body * sp.Abs(Rotation.D(j, j, rng.choice([j, -j]), rng.choice(kins), rng.choice(kins), rng.choice([0, rng.choice(kins)]))) ** 2
     intensity = PoolSum(body, (lam, pool))
-    pvals = {p: rng.choice(VALUES) for p in params}
+    def value_for(sym):
+        """mostly a default value that satisfies the symbol's assumptions (as ampform's own defaults do),
+        sometimes any value (the attribute accepts it; merges are then outside the numeric clause)"""
+        if rng.random() < 0.15:
+            return rng.choice(VALUES)
+        ok = [v for v in VALUES if not (
+            (sym.is_real and isinstance(v, complex)) or (sym.is_positive and not isinstance(v, complex) and v <= 0)
+            or (sym.is_nonnegative and not isinstance(v, complex) and v < 0))]
+        return rng.choice(ok)
+
+    pvals = {p: value_for(p) for p in params}
     for _ in range(rng.choice([0, 0, 1, 2])):  # parameters that occur only in parameter_defaults
-        pvals[sp.Symbol(rng.choice(["m_7", "m_8", "unused_{par}", "zeta"]), **rng.choice(ASSUMPTIONS))] = rng.choice(VALUES)
+        extra = sp.Symbol(rng.choice(["m_7", "m_8", "unused_{par}", "zeta"]), **rng.choice(ASSUMPTIONS))
+        pvals[extra] = value_for(extra)
     items = list(pvals.items())
     rng.shuffle(items)
     comps = {}
